@@ -388,10 +388,15 @@ class C08(Machine):
             pb.step(c0, op="new", dst=d, size=w, val=rng.getrandbits(w) if w else 0, src=rng.choice(["int", "int", "list", "bytes"]))
         clients = [c0] + [pb.client() for _ in range(nclients - 1)]
         budget = rng.randint(6, 22)
+        READS = ["int", "sint", "str", "iter", "hw", "bytes", "bitlist_rev"]
         for _ in range(budget):
             c = rng.choice(clients)
             r = rng.random()
             u = [rint(rng) for _ in range(5)]
+            around = 0.12 <= r < 0.58 and rng.random() < 0.3      # a mutation: read the same vector before and after it
+            rd = rng.choice(READS)
+            if around:
+                pb.step(c, op=rd, u=[u[0], 0, 0, 0, 0])
             dst = rng.randrange(NH)
             if r < 0.06:
                 w = rwidth(rng)
@@ -445,6 +450,8 @@ class C08(Machine):
                 pb.step(c, op=rng.choice(["getslice", "getslice", "getlist"]), u=u, dst=dst if rng.random() < 0.7 else None)
             else:
                 pb.step(c, op=rng.choice(["int", "sint", "str", "iter", "hw", "bytes", "bitlist_rev", "hd"]), u=u)
+            if around:
+                pb.step(c, op=rd, u=[u[0], 0, 0, 0, 0])
         return pb.finish(rng)
 
     # -----------------------------------------------------------------------------------------
